@@ -151,6 +151,11 @@ class Counters:
                     eng.violate("TS-7", "inc-on-dead", "the strong count of %s is raised although the object may be dead (strong-state %s): a dead object would be revived" % (show(b), "".join(sorted(ss))), ev.b, st)
                 if ("inc_pending", "Rc", b) in st.flags:
                     eng.violate("TS-9", "double-increment:Rc", "the strong count of %s is raised twice for one new handle" % show(b), ev.b, st)
+                # the handle may have been put together first and counted afterwards (`let twin = ManuallyDrop::new(..);
+                # twin.inner().inc_strong()`): the pairing does not depend on the order of the two steps
+                early = [g for g in st.flags if g[0] == "xfer_new" and g[1] == "Rc" and g[2] == b]
+                if early:
+                    return rem(st, lambda g: g == early[0])
                 return add(st, ("inc_pending", "Rc", b))
             if cls == "dec":
                 if self.entry_kind == "rc_drop" and b == self.self_box:
@@ -176,6 +181,9 @@ class Counters:
         if cls == "inc":
             if ("inc_pending", "Weak", b) in st.flags:
                 eng.violate("TS-9", "double-increment:Weak", "the weak count of %s is raised twice for one new handle" % show(b), ev.b, st)
+            early = [g for g in st.flags if g[0] == "xfer_new" and g[1] == "Weak" and g[2] == b]
+            if early:
+                return rem(st, lambda g: g == early[0])
             return add(st, ("inc_pending", "Weak", b))
         if cls == "dec":
             dead = st.strong(b) <= DEAD
@@ -241,6 +249,8 @@ class Counters:
 
     def on_ptr_sentinel(self, eng, st, ptr, is_s, b):
         if is_s:
+            # (a dangling Weak put together before the sentinel test needs no count either)
+            st = rem(st, lambda g: g[0] == "xfer_new" and g[1] == "Weak" and g[2] == ptr)
             return add(st, ("dangling", ptr))
         return None
 
